@@ -37,6 +37,9 @@ type fsModel struct {
 	id      string
 	byJob   bool
 	seen    map[string]bool
+	// runOwned: the active job sync was started by the failing job run (another sink object than the driver's):
+	// the driver's end is then somebody else's end and completes nothing
+	runOwned bool
 }
 
 type fsHarness struct {
@@ -215,7 +218,7 @@ func replayFullSync(hist []FsOp) (res fsResult) {
 	jobOpen := false
 	for _, op := range hist {
 		switch op.K {
-		case "jobstart":
+		case "jobstart", "jobrunfail":
 			jobOpen = true
 		case "jobend":
 			if !jobOpen {
@@ -262,6 +265,31 @@ func replayFullSync(hist []FsOp) (res fsResult) {
 				jerr = f.job.Process(f.jobEntities(op.Ents))
 			case "jobend":
 				jerr = f.job.End()
+			case "jobrunfail":
+				// a real fullsync job run from an auxiliary dataset holding op.Ents, batch size 1, whose source fails at its
+				// second read: the run starts the job's sync, delivers the first entity and is abandoned
+				if jw.W.Dsm.GetDataset(h.DsName("S")) == nil {
+					if err := h.EnsureDatasets("S"); err != nil {
+						res.herr = err.Error()
+						return
+					}
+				}
+				if err := jw.W.Dsm.GetDataset(h.DsName("S")).StoreEntities(f.jobEntities(op.Ents)); err != nil {
+					res.herr = err.Error()
+					return
+				}
+				le, pn, err := jw.JRunFullSyncFailing(h, "S", "A", 2)
+				if err != nil {
+					res.herr = err.Error()
+					return
+				}
+				if pn != "" {
+					fail("job-run-panics", "the failing fullsync job run panicked: "+pn)
+				}
+				if le == "" {
+					res.herr = "harness: the job run with a failing source recorded no error"
+					return
+				}
 			case "expire":
 				vsync.Sleep(time.Millisecond) // every armed timer fires and the lease goroutines run to completion
 			}
@@ -357,7 +385,7 @@ func replayFullSync(hist []FsOp) (res fsResult) {
 				if op.K == "startend" {
 					m.active, m.id, m.byJob, m.seen = true, op.ID, false, map[string]bool{}
 				}
-				completes := m.active && ((op.K == "jobend" && m.byJob) || (op.K != "jobend" && !m.byJob && op.ID == m.id))
+				completes := m.active && ((op.K == "jobend" && m.byJob && !m.runOwned) || (op.K != "jobend" && !m.byJob && op.ID == m.id))
 				if !completes {
 					// superseded, abandoned, expired or foreign: deletes nothing, neither now nor later
 					noDeletes("no matching active sync: superseded, expired, foreign or never started")
@@ -410,6 +438,18 @@ func replayFullSync(hist []FsOp) (res fsResult) {
 				noDeletes("a start never deletes")
 				if jerr == nil {
 					m.active, m.id, m.byJob, m.seen = true, "", true, map[string]bool{}
+					m.runOwned = false
+				}
+			case "jobrunfail":
+				noDeletes("a job run that fails midway abandons its sync: nothing is deleted")
+				m.active, m.id, m.byJob, m.seen = true, "", true, map[string]bool{}
+				m.runOwned = true
+				// the first page was delivered before the source failed
+				if liveAfter[op.Ents[0]] {
+					m.live[op.Ents[0]] = "x"
+					m.seen[op.Ents[0]] = true
+				} else {
+					fail("job-run-first-page-lost", fmt.Sprintf("%s: the entity of the page delivered before the failure (%s) is not live", op, op.Ents[0]))
 				}
 			case "jobbatch":
 				noDeletes("a batch never deletes")
@@ -447,7 +487,7 @@ func replayFullSync(hist []FsOp) (res fsResult) {
 	}
 	sort.Strings(tl)
 	dsA := jw.W.Dsm.GetDataset(h.DsName("A"))
-	res.key = fmt.Sprintf("live=%s|tomb=%s|active=%v,%s,%v|seen=%s|jobOpen=%v|impl=%s", keys(live), strings.Join(tl, ","), m.active, m.id, m.byJob, keys(m.seen), jobOpen, dsA.VFullSyncState())
+	res.key = fmt.Sprintf("live=%s|tomb=%s|active=%v,%s,%v|seen=%s|jobOpen=%v|impl=%s", keys(live), strings.Join(tl, ","), m.active, m.id, fmt.Sprint(m.byJob, m.runOwned), keys(m.seen), jobOpen, dsA.VFullSyncState())
 	res.outcome = res.key
 	return
 }
@@ -478,7 +518,7 @@ func init() {
 		})
 	})
 	engine.RegisterCheck("C09", func(r *engine.Run) {
-		r.Rule = "SEQ: every sequence up to the stated depth of full-sync requests through the real HTTP handler (start/batch/end with ids x,y or none, single-request start+end, plain writes, POST /transactions) and through the real job sink (start/batch/end), plus lease expiry (timers owned by the controlled scheduler), on a dataset preloaded with 3 live entities; after every request: a foreign-id batch has no effect, nothing but a completing end deletes, a completing end deletes exactly the previously live entities not written since the start (each once), superseded/expired/abandoned syncs delete nothing. SCHED: the lease goroutine and the passage of time interleaved with end/batch/start requests"
+		r.Rule = "SEQ: every sequence up to the stated depth of full-sync requests through the real HTTP handler (start/batch/end with ids x,y or none, single-request start+end, plain writes, POST /transactions) and through the real job sink (start/batch/end; a real fullsync job run whose source fails at its second read), plus lease expiry (timers owned by the controlled scheduler), on a dataset preloaded with 3 live entities; after every request: a foreign-id batch has no effect, nothing but a completing end deletes, a completing end deletes exactly the previously live entities not written since the start (each once), superseded/expired/abandoned syncs delete nothing. SCHED: the lease goroutine and the passage of time interleaved with end/batch/start requests"
 		r.Assumptions = []string{"whether a write without sync id is accepted while a sync is active, and whether a batch with an id is accepted when no sync is active, is left open (both answers accepted; consequences checked)", "time only passes when the explorer lets a deadline thread run"}
 		var alpha []FsOp
 		for _, id := range []string{"x", "y"} {
@@ -487,7 +527,8 @@ func init() {
 		// an end request without a sync id, and a write through POST /transactions
 		alpha = append(alpha, FsOp{K: "end", ID: "", Ents: []string{"e4"}}, FsOp{K: "txn", Ents: []string{"e2"}})
 		alpha = append(alpha, FsOp{K: "batch", Ents: []string{"e3"}}, FsOp{K: "startend", ID: "x", Ents: []string{"e1", "e2"}},
-			FsOp{K: "jobstart"}, FsOp{K: "jobbatch", Ents: []string{"e1", "e4"}}, FsOp{K: "jobend"}, FsOp{K: "expire"})
+			FsOp{K: "jobstart"}, FsOp{K: "jobbatch", Ents: []string{"e1", "e4"}}, FsOp{K: "jobend"}, FsOp{K: "expire"},
+			FsOp{K: "jobrunfail", Ents: []string{"e1", "e4"}})
 		var raw []json.RawMessage
 		for _, o := range alpha {
 			b, _ := json.Marshal(o)
